@@ -1164,6 +1164,35 @@ fn carry_sessions(tag: &'static str) -> Vec<(DbgCase, &'static str)> {
     out
 }
 
+/// The debugger paused with the PC OUTSIDE user space (below the origin, at 0, above 0xFE00, at
+/// 0xFFFF), then PC-relative locations with offsets of every size: the true sum decides.
+fn stray_pc_sessions(tag: &'static str) -> Vec<(DbgCase, &'static str)> {
+    let mut out = Vec::new();
+    let mut rng = Rng::new(0x57A7);
+    for pc in [0x2FFFu16, 0x2000, 0x0000, 0x0001, 0xFE00, 0xFFFF, 0x8000] {
+        for off in [-0x201i32, -0x300, -0x1000, -0x2FFF, -0x3000, -0x8000, -0x7FFF, -1, 0, 1, 0x1001, 0x3000, 0x7FFF, 0x6000] {
+            for variant in 0..3 {
+                // ld r0 target / jmp r0 / halt / target
+                let p = Prog { orig: 0x3000, words: vec![0x2002, 0xC000, 0xF025, pc], inp: vec![], stack: false, minimal: true, kind: "stray-pc" };
+                let mut c = decorate(&mut rng, &p, tag, vec![], 30_000);
+                c.breaks.clear();
+                c.labels.clear();
+                let l = Loc::Pc(off);
+                let mut cmds = vec![Cmd::StepInto(2), Cmd::Registers];
+                cmds.push(match variant {
+                    0 => Cmd::MoveMem(l, 0x1234),
+                    1 => Cmd::BreakAdd(l),
+                    _ => Cmd::Goto(l),
+                });
+                cmds.extend([Cmd::BreakList, Cmd::Registers, Cmd::Exit]);
+                c.cmds = cmds;
+                out.push((c, "stray-pc"));
+            }
+        }
+    }
+    out
+}
+
 /// Locations whose true address is negative, at origins 0 and 1, from every PC of the program.
 fn below_zero_sessions(tag: &'static str) -> Vec<(DbgCase, &'static str)> {
     let mut out = Vec::new();
@@ -1472,6 +1501,18 @@ pub fn run_prop(o: &crate::Opts, tag: &'static str) {
     }
     if tag == "D13" {
         for (i, (c, kind)) in carry_sessions(tag).into_iter().enumerate() {
+            if i % o.nshards != o.shard {
+                continue;
+            }
+            let obs = run_debug(&mut cap, &c);
+            let v = if obs.line == "panic" { "-".to_string() } else { verdict(&mut cap, tag, &c, &obs) };
+            *kinds.entry(format!("directed-{}:{}", kind, obs.line.split(' ').next().unwrap_or(""))).or_default() += 1;
+            *verdicts.entry(v.clone()).or_default() += 1;
+            sink.put(&c.request(), &format!("{} | {}", obs.line, v));
+        }
+    }
+    if tag == "D13" {
+        for (i, (c, kind)) in stray_pc_sessions(tag).into_iter().enumerate() {
             if i % o.nshards != o.shard {
                 continue;
             }
